@@ -465,6 +465,31 @@ func runV1Payouts(b *harness.B) {
 			}
 			b.Count("v1_renewals_checked", 1)
 		}
+		// the renter-side helper that proposes the new collateral of a renewal: with the time extension the
+		// constructor uses (CalculateHostPayouts), base + proposed collateral stays within the host's maximum
+		if i%7 == 0 {
+			hs := rhp2.HostSettings{WindowSize: 1 + r.Uint64N(200), Collateral: types.NewCurrency64(r.Uint64N(1 << 20)), MaxCollateral: randCurrency(r, 90)}
+			fc := cur.FileContract
+			endH := max(fc.WindowStart, child) + r.Uint64N(300)
+			newStorage := r.Uint64N(1 << 40)
+			var got types.Currency
+			wit := func() any {
+				return map[string]any{"contract": jsonOf(fc), "expected_new_storage": newStorage, "collateral": hs.Collateral.ExactString(), "max_collateral": hs.MaxCollateral.ExactString(), "window_size": hs.WindowSize, "block_height": child, "end_height": endH}
+			}
+			b.Eval(1)
+			b.Count("v1_renewal_collateral_proposals_checked", 1)
+			if !b.Guard("C17/v1/rhp2.ContractRenewalCollateral", wit, func() { got = rhp2.ContractRenewalCollateral(fc, newStorage, hs, child, endH) }) {
+				var ext uint64
+				if end := endH + hs.WindowSize; end > fc.WindowEnd {
+					ext = end - fc.WindowEnd
+				}
+				base := new(big.Int).Mul(toBig(hs.Collateral), new(big.Int).Mul(new(big.Int).SetUint64(fc.Filesize), new(big.Int).SetUint64(ext)))
+				total := new(big.Int).Add(base, toBig(got))
+				if !got.IsZero() && total.Cmp(toBig(hs.MaxCollateral)) > 0 {
+					b.Violate("C17/v1/rhp2.ContractRenewalCollateral/proposal-exceeds-the-host-maximum", fmt.Sprintf("proposed new collateral %v plus the base collateral the renewal constructor will add (%v, extension %d blocks) exceeds MaxCollateral %v", got.ExactString(), base, ext, hs.MaxCollateral.ExactString()), wit())
+				}
+			}
+		}
 		hostHeight := child - 1 - r.Uint64N(min(child-1, 3)+1)
 		if vc3, feasible, err := g.renewal3G(b, t, cur, end2, hostHeight); err != nil {
 			b.Count("v1_rhp3_renewal_refused", 1)
